@@ -233,6 +233,7 @@ type connResult struct {
 //	rb=N|all|none   how much of the body the handler reads (streaming) / observes
 //	bc=1            take the body through Request.Body()     rsb=1 Request.ResetBody()    sb=1 Request.SetBodyString
 //	sc=CODE         status code          body=TEXT   response body          close=1   SetConnectionClose
+//	hjg=1           the hijack handler waits for connServer.hjGate before it reads
 //	hj=1 hijack     hjn=1 HijackSetNoResponse     hjnr=1 HijackSetNoResponse(true) WITHOUT Hijack
 //	hcl=1           Response.Header.Set("Connection","close")
 //	ter=0|1         answer through TimeoutErrorWithResponse(resp) (1: resp.SetConnectionClose())
@@ -256,6 +257,10 @@ type connServer struct {
 	hjWG sync.WaitGroup
 	// pauses for the next run (see scriptConn.pauses)
 	pauses []time.Duration
+	// hjGate, when set, parks a hijack handler asked for with hjg=1 before it reads anything; noWait makes run return
+	// without waiting for hijack handlers (the caller serves further connections first and waits itself)
+	hjGate chan struct{}
+	noWait bool
 	// extra is called at the end of the scripted handler (property-specific observations / mutations)
 	extra func(ctx *fasthttp.RequestCtx, d *dispatchRec)
 }
@@ -273,6 +278,10 @@ func (cs *connServer) run(chunks [][]byte) *connResult {
 		}()
 		res.ServeErr = cs.s.ServeConn(conn)
 	}()
+	if cs.noWait {
+		res.Consumed = conn.consumed
+		return res
+	}
 	waitTimeout(&cs.hjWG, 10*time.Second) // only a hijack handler that never returns waits this long
 	if res.HijackConn != nil && cs.cfg.KeepHijacked {
 		// the application keeps using the hijacked connection after the hijack handler returned
@@ -467,6 +476,9 @@ func newConnServer(cfg connCfg) *connServer {
 				outLen := len(tr.Out)
 				tr.mu.Unlock()
 				tr.add(connEvent{Kind: "hjstart", N: outLen})
+				if q.Has("hjg") && cs.hjGate != nil {
+					<-cs.hjGate // the application reads from the hijacked connection only later
+				}
 				if k := q.GetUintOrZero("hjk"); k > 0 {
 					// read only k bytes inside the handler; with KeepHijackedConns the rest is read after it returned
 					buf := make([]byte, k)
@@ -478,6 +490,16 @@ func newConnServer(cfg connCfg) *connServer {
 					res.HijackRead = b
 				}
 				tr.add(connEvent{Kind: "hjdone"})
+			})
+			if q.Has("hjn") {
+				ctx.HijackSetNoResponse(true)
+			}
+		}
+		if q.Has("hjx") {
+			// a hijack request that the server may legitimately ignore (the handler times out afterwards): not waited for
+			ctx.Hijack(func(c net.Conn) {
+				tr.add(connEvent{Kind: "hjx"})
+				c.Write([]byte("HIJACKED"))
 			})
 			if q.Has("hjn") {
 				ctx.HijackSetNoResponse(true)
